@@ -81,6 +81,26 @@ static inline bool     nd_bool(void){ return (nd_u64() & 1) != 0; }
  * symbolic but tiny: CBMC's built-in array_replace encoding of these costs millions of
  * clauses there, a bounded loop a few thousand.  The loops are subject to the unwinding
  * assertions like any other loop.  Semantics are the C library's (memmove handles overlap). */
+#ifdef VLOOP_MEM_ONECHECK
+/* variant: validity of both ranges is asserted once per call (as the C library requires,
+ * including non-null pointers for n == 0), the byte loop itself runs without per-byte
+ * pointer checks -- same property, a fraction of the formula */
+static inline void *vmemcpy(void *d, const void *s, size_t n)
+{
+	__CPROVER_assert(d != NULL && s != NULL, "memcpy: pointers are non-null");
+	__CPROVER_assert(n == 0 || __CPROVER_w_ok(d, n), "memcpy: destination range writable");
+	__CPROVER_assert(n == 0 || __CPROVER_r_ok(s, n), "memcpy: source range readable");
+	unsigned char *dd = d; const unsigned char *ss = s;
+#pragma CPROVER check push
+#pragma CPROVER check disable "pointer"
+#pragma CPROVER check disable "bounds"
+#pragma CPROVER check disable "pointer-overflow"
+	for (size_t i = 0; i < n; ++i)
+		dd[i] = ss[i];
+#pragma CPROVER check pop
+	return d;
+}
+#else
 static inline void *vmemcpy(void *d, const void *s, size_t n)
 {
 	unsigned char *dd = d; const unsigned char *ss = s;
@@ -88,6 +108,7 @@ static inline void *vmemcpy(void *d, const void *s, size_t n)
 		dd[i] = ss[i];
 	return d;
 }
+#endif
 static inline void *vmemmove(void *d, const void *s, size_t n)
 {
 	unsigned char *dd = d; const unsigned char *ss = s;
